@@ -88,6 +88,7 @@ type event struct {
 	ID        int64  `json:"id,omitempty"`
 	Delivered bool   `json:"delivered"`
 	Post      uint64 `json:"post,omitempty"` // filled in from the run
+	Wal       bool   `json:"wal,omitempty"`  // filled in from the run: the database is in WAL mode
 }
 
 func (e event) coq() string {
@@ -99,7 +100,12 @@ func (e event) coq() string {
 	case "checkpoint":
 		return "ECheckpoint"
 	case "commit":
+		if e.Wal {
+			return fmt.Sprintf("ECommitWal %d %s", e.Post, common.CoqBool(e.Delivered))
+		}
 		return fmt.Sprintf("ECommit %d %s", e.Post, common.CoqBool(e.Delivered))
+	case "restart":
+		return "ERestart"
 	case "release":
 		return fmt.Sprintf("ERelease %s", common.CoqBool(e.Delivered))
 	case "expire":
@@ -120,6 +126,8 @@ type rig struct {
 	o       *cluster.Node
 	fc      *faultClient
 	content uint64
+	wal     bool
+	crash   string // copy of R's data directory taken the moment R called Exit
 }
 
 func pos(n *cluster.Node) (uint64, uint64) {
@@ -133,25 +141,99 @@ func pos(n *cluster.Node) (uint64, uint64) {
 func (g *rig) fresh(n *cluster.Node) *hist.Runner {
 	db := n.Store.DB(dbName)
 	cur, _ := lfs.ReadImage(filepath.Dir(db.DatabasePath()))
-	h := hist.NewOn(g.c, g.r.Fork(), hist.Config{PageSize: 512}, n.Store, n.Exits, dbName, cur, uint64(db.Pos().TXID), false)
+	h := hist.NewOn(g.c, g.r.Fork(), hist.Config{PageSize: 512, AllowWAL: g.wal}, n.Store, n.Exits, dbName, cur, uint64(db.Pos().TXID), g.wal)
 	h.Pager.RollbackOnCommitError = true
+	if g.wal {
+		// a connection that opens the database continues the log where it stands
+		h.Pager.AttachWAL(uint32(g.r.U64()), uint32(g.r.U64()))
+	}
 	return h
 }
 
-// writeTx runs one committing rollback-journal transaction on node n.
+// writeTx runs one committing transaction on node n: a rollback-journal transaction, or a WAL transaction if
+// the database is in WAL mode. A WAL commit has no error path back to the writer (LiteFS captures it when the
+// WAL write lock is released): it succeeded iff the node's position moved.
 func (g *rig) writeTx(n *cluster.Node) (ok bool, errs string) {
 	h := g.fresh(n)
-	for tries := 0; tries < 60; tries++ {
+	want := "rtx"
+	if g.wal {
+		want = "wtx"
+	}
+	for tries := 0; tries < 200; tries++ {
 		st := h.GenStep()
-		if st.Op != "rtx" {
+		if st.Op != want {
 			continue
 		}
 		st.Outcome = 0
 		st.ToWAL = false
+		st.Aborted = nil
+		t0, _ := pos(n)
 		ob := h.Exec(st)
+		if g.wal {
+			t1, _ := pos(n)
+			return ob.Err == "" && ob.Panic == "" && t1 == t0+1 && len(ob.Exits) == 0, ob.Err + ob.Panic
+		}
 		return ob.Captured && ob.Err == "" && ob.Panic == "", ob.Err + ob.Panic
 	}
 	return false, "no step"
+}
+
+func copyTree(src, dst string) error {
+	return filepath.Walk(src, func(p string, fi os.FileInfo, err error) error {
+		if err != nil {
+			return nil // files come and go while the node runs
+		}
+		rel, _ := filepath.Rel(src, p)
+		if fi.IsDir() {
+			return os.MkdirAll(filepath.Join(dst, rel), 0o755)
+		}
+		b, err := os.ReadFile(p)
+		if err != nil {
+			return nil
+		}
+		return os.WriteFile(filepath.Join(dst, rel), b, 0o644)
+	})
+}
+
+// restartR: R's process dies (its data directory as it is now, or as it was when it called Exit) and starts again.
+// Nothing is sent to the primary on the way down.
+func (g *rig) restartR() error {
+	dir := g.rn.Dir
+	if g.crash == "" {
+		g.crash = dir + ".crash"
+		_ = os.RemoveAll(g.crash)
+		if err := copyTree(dir, g.crash); err != nil {
+			return err
+		}
+	}
+	g.fc.mu.Lock()
+	g.fc.dropRelease = true
+	g.fc.mu.Unlock()
+	g.rn.Stop()
+	g.fc.mu.Lock()
+	g.fc.dropRelease = false
+	g.fc.mu.Unlock()
+	if err := os.RemoveAll(dir); err != nil {
+		return err
+	}
+	if err := os.Rename(g.crash, dir); err != nil {
+		return err
+	}
+	g.crash = ""
+	rn, err := g.clu.Start("r", false)
+	if err != nil {
+		return fmt.Errorf("restart of the replica: %w", err)
+	}
+	g.rn = rn
+	// the restarted node is in service once it has found the primary
+	deadline := time.Now().Add(5 * time.Second)
+	for time.Now().Before(deadline) {
+		if _, info := rn.Store.PrimaryInfo(); info != nil {
+			return nil
+		}
+		time.Sleep(2 * time.Millisecond)
+	}
+	return fmt.Errorf("the restarted replica does not find the primary")
 }
 
 func buildLTX(ps uint32, commit uint32, txid uint64, pre, post uint64, pages map[uint32][]byte) []byte {
@@ -196,13 +278,15 @@ func (g *rig) observe(code int) []uint64 {
 	return []uint64{uint64(code), pt, pc, rt, rc, ot, oc, uint64(g.p.Store.DB(dbName).VerifHaltLockID()), rl}
 }
 
-func history(c *common.Ctx, cf *common.CaseFile, r *common.Rand, idx int, script []event) error {
+func history(c *common.Ctx, cf *common.CaseFile, r *common.Rand, idx int, script []event, wal bool) error {
 	dir, err := os.MkdirTemp(c.OutDir, "c13-")
 	if err != nil {
 		return err
 	}
 	defer os.RemoveAll(dir)
 	fc := &faultClient{inner: lfshttp.NewClient()}
+	var crashMu sync.Mutex
+	crashDir := ""
 	clu := cluster.New(dir, 3*time.Second)
 	clu.Opts = func(name string, s *litefs.Store) {
 		s.HaltAcquireTimeout = 250 * time.Millisecond
@@ -210,6 +294,21 @@ func history(c *common.Ctx, cf *common.CaseFile, r *common.Rand, idx int, script
 		s.HaltLockMonitorInterval = time.Hour
 		if name == "r" {
 			s.Client = fc
+			// a process that calls Exit is gone: keep its data directory as it is at that moment
+			orig := s.Exit
+			path := s.Path()
+			s.Exit = func(code int) {
+				crashMu.Lock()
+				if crashDir == "" {
+					d := path + ".crash"
+					_ = os.RemoveAll(d)
+					if copyTree(path, d) == nil {
+						crashDir = d
+					}
+				}
+				crashMu.Unlock()
+				orig(code)
+			}
 		}
 	}
 	defer clu.Close()
@@ -228,17 +327,22 @@ func history(c *common.Ctx, cf *common.CaseFile, r *common.Rand, idx int, script
 	if err != nil {
 		return err
 	}
-	g := &rig{c: c, r: r, clu: clu, p: p, rn: rn, o: o, fc: fc}
+	g := &rig{c: c, r: r, clu: clu, p: p, rn: rn, o: o, fc: fc, wal: wal}
 	// setup history on the primary
-	hp := hist.NewOn(c, r.Fork(), hist.Config{PageSize: 512}, p.Store, p.Exits, dbName, nil, 0, false)
+	hp := hist.NewOn(c, r.Fork(), hist.Config{PageSize: 512, AllowWAL: wal}, p.Store, p.Exits, dbName, nil, 0, false)
 	var setup []uint64
-	for i := 0; i < 2+r.Intn(2); i++ {
-		for tries := 0; tries < 60; tries++ {
+	nSetup := 2 + r.Intn(2)
+	for i := 0; i < nSetup; i++ {
+		want := "rtx"
+		if wal && i >= 2 {
+			want = "wtx"
+		}
+		for tries := 0; tries < 200; tries++ {
 			st := hp.GenStep()
-			if st.Op != "rtx" {
+			if st.Op != want {
 				continue
 			}
-			st.Outcome, st.ToWAL = 0, false
+			st.Outcome, st.ToWAL, st.Aborted = 0, wal && i == 1, nil
 			if ob := hp.Exec(st); !ob.Captured || ob.Err != "" {
 				return fmt.Errorf("setup commit: %s", ob.Err)
 			}
@@ -251,8 +355,9 @@ func history(c *common.Ctx, cf *common.CaseFile, r *common.Rand, idx int, script
 	if !cluster.WaitPos(rn, dbName, pt, pc, 10*time.Second) || !cluster.WaitPos(o, dbName, pt, pc, 10*time.Second) {
 		return fmt.Errorf("replicas did not catch up")
 	}
-	pdb, rdb := p.Store.DB(dbName), rn.Store.DB(dbName)
-	rep := map[string]any{"kind": "halt-history", "index": idx, "seed": c.Seed}
+	pdb := p.Store.DB(dbName)
+	rdb := func() *litefs.DB { return g.rn.Store.DB(dbName) }
+	rep := map[string]any{"kind": "halt-history", "index": idx, "seed": c.Seed, "wal": wal}
 	key := func(k string) string { return "C13:" + k }
 
 	var evs []event
@@ -271,7 +376,7 @@ func history(c *common.Ctx, cf *common.CaseFile, r *common.Rand, idx int, script
 			e = event{Kind: "release", Delivered: true}
 			pendingRelease = false
 		} else {
-			held := rdb.HasRemoteHaltLock()
+			held := rdb().HasRemoteHaltLock()
 			x := r.Intn(100)
 			switch {
 			case x < 22:
@@ -288,8 +393,10 @@ func history(c *common.Ctx, cf *common.CaseFile, r *common.Rand, idx int, script
 				} else {
 					e = event{Kind: "release", Delivered: !r.Chance(25)}
 				}
-			case x < 91:
+			case x < 89:
 				e = event{Kind: "expire"}
+			case x < 92:
+				e = event{Kind: "restart"}
 			default:
 				e = event{Kind: "foreign", ID: int64(11 + r.Intn(3))}
 			}
@@ -302,7 +409,7 @@ func history(c *common.Ctx, cf *common.CaseFile, r *common.Rand, idx int, script
 			fc.mu.Lock()
 			fc.loseAcquireResp, fc.acquireGranted = !e.Delivered, false
 			fc.mu.Unlock()
-			hl, err := rdb.AcquireRemoteHaltLock(context.Background(), e.ID)
+			hl, err := rdb().AcquireRemoteHaltLock(context.Background(), e.ID)
 			fc.mu.Lock()
 			granted := fc.acquireGranted
 			fc.loseAcquireResp = false
@@ -310,7 +417,7 @@ func history(c *common.Ctx, cf *common.CaseFile, r *common.Rand, idx int, script
 			switch {
 			case err == nil:
 				code = 1
-				rt, rc := pos(rn)
+				rt, rc := pos(g.rn)
 				pt, pc := pos(p)
 				if uint64(hl.Pos.TXID) != rt || uint64(hl.Pos.PostApplyChecksum) != rc || rt != pt || rc != pc {
 					c.Violate(key("grant:position"), fmt.Sprintf("halt lock %d granted at (%d,%016x) but the replica starts writing at (%d,%016x) with the primary at (%d,%016x)", e.ID, uint64(hl.Pos.TXID), uint64(hl.Pos.PostApplyChecksum), rt, rc, pt, pc), rep)
@@ -349,9 +456,9 @@ func history(c *common.Ctx, cf *common.CaseFile, r *common.Rand, idx int, script
 			fc.mu.Lock()
 			fc.loseCommitResp, fc.commitApplied, fc.commitCalls = !e.Delivered, false, 0
 			fc.mu.Unlock()
-			held := rdb.HasRemoteHaltLock()
+			held := rdb().HasRemoteHaltLock()
 			lfs.BusyTimeout = 100 * time.Millisecond
-			ok, errs := g.writeTx(rn)
+			ok, errs := g.writeTx(g.rn)
 			lfs.BusyTimeout = 3 * time.Second
 			fc.mu.Lock()
 			applied := fc.commitApplied
@@ -360,8 +467,8 @@ func history(c *common.Ctx, cf *common.CaseFile, r *common.Rand, idx int, script
 			switch {
 			case ok:
 				code = 1
-				_, e.Post = pos(rn)
-				rt, rc := pos(rn)
+				_, e.Post = pos(g.rn)
+				rt, rc := pos(g.rn)
 				pt, pc := pos(p)
 				if rt != pt || rc != pc {
 					c.Violate(key("acknowledged"), fmt.Sprintf("the replica's commit returned at (%d,%016x) but the primary is at (%d,%016x)", rt, rc, pt, pc), rep)
@@ -373,21 +480,47 @@ func history(c *common.Ctx, cf *common.CaseFile, r *common.Rand, idx int, script
 				code = 2
 				_, e.Post = pos(p)
 			}
-			if !ok && held && rdb.HasRemoteHaltLock() {
+			e.Wal = wal
+			crashMu.Lock()
+			g.crash, crashDir = crashDir, ""
+			crashMu.Unlock()
+			if ex := g.rn.Exits(); len(ex) > 0 {
+				// WAL mode: a forwarded commit that fails cannot be rolled back (SQLite has finished writing), so
+				// CommitWAL stops the node; the node starts again from what is on disk
+				if !wal || ok {
+					c.Violate(key("exit"), fmt.Sprintf("the replica called Exit(%v) during a commit (wal=%v, committed=%v)", ex, wal, ok), rep)
+					break
+				}
+				if err := g.restartR(); err != nil {
+					c.Violate(key("restart-after-failed-wal-commit"), "the replica stopped itself after a failed forwarded WAL commit and cannot start again: "+err.Error(), rep)
+					break
+				}
+				c.Count("wal_commit_failstop_restarts", 1)
+			} else if wal && !ok && held && code != 0 {
+				c.Violate(key("wal-commit-lost"), "the forwarded WAL commit was applied on the primary, the replica did not take it and keeps running", rep)
+			}
+			g.crash = ""
+			if !ok && held && rdb() != nil && rdb().HasRemoteHaltLock() {
 				pendingRelease = true // the application gives up and lets go of the lock
 			}
 			_ = errs
 		case "release":
-			if hl := rdb.RemoteHaltLock(); hl != nil {
+			if hl := rdb().RemoteHaltLock(); hl != nil {
 				fc.mu.Lock()
 				fc.dropRelease = !e.Delivered
 				fc.mu.Unlock()
-				_ = rdb.ReleaseRemoteHaltLock(context.Background(), hl.ID)
+				_ = rdb().ReleaseRemoteHaltLock(context.Background(), hl.ID)
 				fc.mu.Lock()
 				fc.dropRelease = false
 				fc.mu.Unlock()
 				code = 1
 			}
+		case "restart":
+			if err := g.restartR(); err != nil {
+				c.Violate(key("restart"), "the replica cannot start again on its data directory: "+err.Error(), rep)
+				break
+			}
+			code = 1
 		case "expire":
 			pdb.VerifExpireHaltLock()
 			p.Store.EnforceHaltLockExpiration(context.Background())
@@ -400,7 +533,7 @@ func history(c *common.Ctx, cf *common.CaseFile, r *common.Rand, idx int, script
 			nim := im.Clone()
 			pg := uint32(len(nim.Pages))
 			g.content++
-			data := lfs.MakePage(im.PageSize, pg, 0x77000000+g.content+uint64(idx)<<16, uint32(len(nim.Pages)), false)
+			data := lfs.MakePage(im.PageSize, pg, 0x77000000+g.content+uint64(idx)<<16, uint32(len(nim.Pages)), wal)
 			nim.Pages[pg-1] = data
 			e.Post = nim.Checksum()
 			body := buildLTX(uint32(im.PageSize), uint32(len(nim.Pages)), ptB+1, pcB, e.Post, map[uint32][]byte{pg: data})
@@ -433,14 +566,14 @@ func history(c *common.Ctx, cf *common.CaseFile, r *common.Rand, idx int, script
 		obs = append(obs, g.observe(code))
 		c.Evaluations++
 		c.Count("ev_"+e.Kind+fmt.Sprintf("_%d", code), 1)
-		if ex := append(append(p.Exits(), rn.Exits()...), o.Exits()...); len(ex) > 0 {
+		if ex := append(append(p.Exits(), g.rn.Exits()...), o.Exits()...); len(ex) > 0 {
 			c.Violate(key("exit"), fmt.Sprintf("a node called Exit(%v) during %s", ex, e.Kind), rep)
 			break
 		}
 	}
 	// wind down: release everything, one more local write, everybody converges on the same image
-	if hl := rdb.RemoteHaltLock(); hl != nil {
-		_ = rdb.ReleaseRemoteHaltLock(context.Background(), hl.ID)
+	if hl := rdb().RemoteHaltLock(); hl != nil {
+		_ = rdb().ReleaseRemoteHaltLock(context.Background(), hl.ID)
 	}
 	if id := pdb.VerifHaltLockID(); id != 0 {
 		pdb.ReleaseHaltLock(context.Background(), id)
@@ -449,7 +582,7 @@ func history(c *common.Ctx, cf *common.CaseFile, r *common.Rand, idx int, script
 		c.Violate(key("after-release:primary-cannot-write"), "after every halt lock was released the primary cannot commit: "+errs, rep)
 	}
 	pt, pc = pos(p)
-	for _, nd := range []*cluster.Node{rn, o} {
+	for _, nd := range []*cluster.Node{g.rn, o} {
 		if !cluster.WaitPos(nd, dbName, pt, pc, 5*time.Second) {
 			t, ck := pos(nd)
 			var ls []string
@@ -494,6 +627,7 @@ func Run(c *common.Ctx) error {
 		{{Kind: "grant", ID: 11, Delivered: true}, {Kind: "release", Delivered: false}, {Kind: "localwrite"}, {Kind: "grant", ID: 12, Delivered: true}, {Kind: "expire"}, {Kind: "localwrite"}, {Kind: "grant", ID: 12, Delivered: true}, {Kind: "commit", Delivered: true}},
 		{{Kind: "grant", ID: 11, Delivered: true}, {Kind: "foreign", ID: 12}, {Kind: "foreign", ID: 11}, {Kind: "commit", Delivered: true}, {Kind: "release", Delivered: true}},
 		{{Kind: "foreign", ID: 11}, {Kind: "commit", Delivered: true}, {Kind: "grant", ID: 0, Delivered: true}, {Kind: "localwrite"}},
+		{{Kind: "grant", ID: 11, Delivered: true}, {Kind: "commit", Delivered: true}, {Kind: "restart"}, {Kind: "commit", Delivered: true}, {Kind: "localwrite"}, {Kind: "expire"}, {Kind: "localwrite"}, {Kind: "grant", ID: 12, Delivered: true}, {Kind: "commit", Delivered: true}, {Kind: "release", Delivered: true}},
 	}
 	if c.Replay != "" {
 		b, err := os.ReadFile(c.Replay)
@@ -502,8 +636,10 @@ func Run(c *common.Ctx) error {
 		}
 		var doc struct {
 			Events []event `json:"events"`
+			Wal    bool    `json:"wal"`
 			Replay struct {
 				Events []event `json:"events"`
+				Wal    bool    `json:"wal"`
 			} `json:"replay"`
 		}
 		if err := json.Unmarshal(b, &doc); err != nil {
@@ -513,17 +649,20 @@ func Run(c *common.Ctx) error {
 		if len(evs) == 0 {
 			evs = doc.Replay.Events
 		}
-		return history(c, cf, c.Rng.Fork(), 0, evs)
+		return history(c, cf, c.Rng.Fork(), 0, evs, doc.Wal || doc.Replay.Wal)
 	}
 	idx := 0
-	for _, s := range scripts {
-		if err := history(c, cf, c.Rng.Fork(), idx, s); err != nil {
-			return err
+	// every fixed script in both journal modes
+	for _, wal := range []bool{false, true} {
+		for _, s := range scripts {
+			if err := history(c, cf, c.Rng.Fork(), idx, s, wal); err != nil {
+				return err
+			}
+			idx++
 		}
-		idx++
 	}
 	for i := 0; i < c.Pick(8, 80); i++ {
-		if err := history(c, cf, c.Rng.Fork(), idx, nil); err != nil {
+		if err := history(c, cf, c.Rng.Fork(), idx, nil, i%2 == 1); err != nil {
 			return err
 		}
 		idx++
